@@ -547,6 +547,9 @@ func checkTDQuoteBody(tdQuoteBody *pb.TDQuoteBody) error {
 			return fmt.Errorf("rtmr%d size is %d bytes. Expected %d bytes", i, len(tdQuoteBody.GetRtmrs()[i]), RtmrSize)
 		}
 	}
+	if len(tdQuoteBody.GetReportData()) != ReportDataSize {
+		return fmt.Errorf("report data size is %d bytes. Expected %d bytes", len(tdQuoteBody.GetReportData()), ReportDataSize)
+	}
 	return nil
 }
 
